@@ -73,7 +73,7 @@ ReMatch(r, w) ==
 
 -----------------------------------------------------------------------------
 (* the logical field behind a schema field: tagi / numi / flagi are the same values indexed differently *)
-FieldOf(f) == CASE f = "tagi" -> "tag" [] f = "numi" -> "num" [] f = "flagi" -> "flag" [] f = "nf" -> "title" [] OTHER -> f
+FieldOf(f) == CASE f = "tagi" -> "tag" [] f = "numi" -> "num" [] f = "flagi" -> "flag" [] f = "nf" -> "title" [] f = "bt" -> "title" [] OTHER -> f
 Vals(d, f) == LET g == FieldOf(f) IN IF g = "id" THEN <<d.id>> ELSE IF g \in DOMAIN d THEN d[g] ELSE <<>>
 IsWordField(f) == FieldOf(f) \in {"tag", "cat"}
 
